@@ -38,8 +38,10 @@ RULE = (
     "a dataset is non-trivial when it has >= 1 row (data branches of the conditionals are exercised); distinct = (dataset, D, script)"
 )
 BOUNDS = {
-    "quick": {"max_rows": 2, "D": [1, 2], "sweeps": 3, "deviation_bound": 0, "deviation_datasets": 0},
-    "thorough": {"max_rows": 3, "D": [1, 2, 3], "sweeps": 3, "deviation_bound": 1, "deviation_datasets": "all datasets with <= 2 rows, D=2"},
+    "quick": {"max_rows": 2, "D": [1, 2], "sweeps": 3, "deviation_bound": 0, "deviation_datasets": 0,
+              "whole_run_scripts": "default pattern; every gamma draw x0.002; every gamma draw x500 (precisions driven into both clipping bounds)"},
+    "thorough": {"max_rows": 3, "D": [1, 2, 3], "sweeps": 3, "deviation_bound": 1, "deviation_datasets": "all datasets with <= 2 rows, D=2",
+                 "whole_run_scripts": "as quick"},
 }
 ASSUMPTIONS = [
     "numpy's Generator.normal / Generator.gamma are trusted to sample the distribution whose parameters they are given",
@@ -157,7 +159,7 @@ class Recorder:
         for _ in range(n):
             self.k += 1
             vals.append(fn(self.k))
-        if self.deviation is not None and self.deviation[0] == call:
+        if self.deviation is not None and (self.deviation[0] == call or self.deviation[0] == "all") and dev_kind in self.deviation[1]:
             vals = [self.deviation[1][dev_kind]] * n
         return np.array(vals, dtype=float).reshape(shape if shape else ())
 
@@ -595,6 +597,8 @@ def plan(tier, seed):
 
 
 DEV_VALUES = [{"z": 3.0, "g": 0.01}, {"z": -3.0, "g": 100.0}]
+# whole-run scripts (every gamma draw extreme): drive every precision into its lower / upper clipping bound
+GLOBAL_SCRIPTS = [("all", {"g": 0.002}), ("all", {"g": 500.0})]
 
 
 def report(col, res, ds, D, deviation, sweeps):
@@ -604,7 +608,13 @@ def report(col, res, ds, D, deviation, sweeps):
 
 
 def run_one(col, ds, D, deviation, sweeps):
-    res, n_blocks, n_draws, rec, mvns = execute(ds, D, None if deviation is None else (deviation[0], DEV_VALUES[deviation[1]]), sweeps)
+    if deviation is None:
+        dv = None
+    elif deviation[0] == "all":
+        dv = GLOBAL_SCRIPTS[deviation[1]]
+    else:
+        dv = (deviation[0], DEV_VALUES[deviation[1]])
+    res, n_blocks, n_draws, rec, mvns = execute(ds, D, dv, sweeps)
     col.evaluations += 1
     col.states += n_blocks + 1
     col.transitions += n_blocks
@@ -646,6 +656,8 @@ def run_item(item, col, tier):
                 col.sample({"dataset_rows(sample,d1,d2)": [row_types()[k] for k in dss[i]], "D": item["D"], "sweeps": sweeps,
                             "draws": len(rec.records), "blocks_per_sweep": BLOCKS})
             seen_q.extend((r["Q"], r["b"]) for r in mvns[:6] if r["b"] is not None)
+            for gi in range(len(GLOBAL_SCRIPTS)):
+                run_one(col, dss[i], item["D"], ("all", gi), sweeps)
         out = []
         check_mvn_sampler(seen_q[:40], out)
         col.count("mvn_pairs_checked", len(seen_q[:40]))
